@@ -733,6 +733,8 @@ def string_token_rows(ck, repo):
             elif "!='LONG_STRING'" in tt:
                 block = o == "F"
         decoded = "_ESCAPED_CHARACTER_REGEX.sub(" in val or "_ESCAPED_UNICODE_REGEX.sub(" in val
+        if block is not None and toks and len(toks[0].args) > 1:
+            _string_delimiters(ck, m, r, toks[0].args[1], block)
         if block is None:
             ck.ob("string_value: every path knows whether the token is a block string", False, m, r["last"] or m.node, construct="string-token:kind", detail=str(r["conds"]))
             continue
@@ -744,6 +746,36 @@ def string_token_rows(ck, repo):
             ck.ob("string_value: an ordinary string has its escaped characters and \\\\uXXXX sequences decoded", "_ESCAPED_CHARACTER_REGEX.sub(" in val and "_ESCAPED_UNICODE_REGEX.sub(" in val, m,
                   r["last"] or m.node, construct="string-token:decoded", detail=val[:200])
     ck.ob("string_value: has a block-string path and an ordinary-string path", seen == {True, False}, m, m.node, construct="string-token:paths", detail=str(seen))
+
+
+def _string_delimiters(ck, m, r, expr, block):
+    """The content of a string token is what stands between its delimiters: they are removed by *position* (one character at
+    each end, three for a block string), never by content - `"say \\"hi\\""` ends with a quote that belongs to the string."""
+    k = 3 if block else 1
+    raw = expr
+    while isinstance(raw, ast.Call) and isinstance(raw.func, ast.Attribute) and raw.func.attr == "sub" and "_REGEX" in unparse(raw.func.value) and len(raw.args) == 2:
+        raw = raw.args[1]   # the decoding passes
+    how, ok = None, None
+    if isinstance(raw, ast.Subscript) and isinstance(raw.slice, ast.Slice) and raw.slice.step is None:
+        lo, hi = raw.slice.lower, raw.slice.upper
+        txt = (unparse(lo) if lo is not None else "", unparse(hi) if hi is not None else "")
+        if isinstance(raw.value, ast.Attribute) and raw.value.attr == "value":
+            how, ok = f"[{txt[0]}:{txt[1]}]", txt in ((str(k), f"-{k}"), (str(k), f"len({unparse(raw.value)}) - {k}"))
+    if how is None:
+        chain, cur = [], raw
+        while isinstance(cur, ast.Call) and isinstance(cur.func, ast.Attribute):
+            chain.append((cur.func.attr, [unparse(a) for a in cur.args]))
+            cur = cur.func.value
+        meths = [c[0] for c in chain]
+        if isinstance(cur, ast.Attribute) and cur.attr == "value" and chain:
+            if sorted(meths) == ["removeprefix", "removesuffix"] and all(a in ([repr('"' * k)], ["'" + '"' * k + "'"]) for _, a in chain):
+                how, ok = ".removeprefix().removesuffix()", True
+            elif any(x in ("strip", "lstrip", "rstrip", "replace", "split", "partition", "rpartition", "translate") for x in meths):
+                how, ok = "." + "().".join(reversed(meths)) + "()", False
+    if how is None:
+        raise AnalysisError(f"TokenTransformer.string_value: cannot tell how the {'block ' if block else ''}string's delimiters are removed from `{unparse(raw)[:120]}`")
+    ck.ob(f"string_value: the {'three quotes' if block else 'quote'} at each end of {'a block' if block else 'an ordinary'} string token {'are' if block else 'is'} removed by position (the content may itself begin or end with a quote)",
+          ok, m, r["last"] or m.node, construct=f"string-token:delimiters:{'block' if block else 'quoted'}", detail=f"{unparse(raw)[:160]} ({how})")
 
 
 def schema_marked_non_introspectable(ck, repo):
